@@ -44,23 +44,26 @@ pub fn main(tier: Tier, seed: u64) -> i32 {
             for at in 0..=len {
                 let dense = at <= first_msg + 6 || at + 6 >= len || tier.is_thorough() || at % 4 == 0;
                 if dense {
-                    jobs.push((ci, party, at));
+                    // the destination answers at once, or only after the client has suspended once
+                    for oy in 0..2u8 {
+                        jobs.push((ci, party, at, oy));
+                    }
                 }
             }
         }
         bases.push((ci, pols, base));
     }
-    let results = par_map(&jobs, |_, _, (ci, party, at)| {
+    let results = par_map(&jobs, |_, _, (ci, party, at, oy)| {
         let (_, pols, base) = bases.iter().find(|b| b.0 == *ci).unwrap();
         let (n, _, _, _) = &cfgs[*ci];
-        let walk = Walk { injections: vec![(*at, Ev::Cancel { pol: 0, party: *party as u8 })], prefer: base.history.clone(), max_steps: 10_000, ..Default::default() };
+        let walk = Walk { injections: vec![(*at, Ev::Cancel { pol: 0, party: *party as u8 })], prefer: base.history.clone(), max_steps: 10_000, output_yields: *oy, ..Default::default() };
         run_walk(*n, 1, pols.clone(), walk, MsgPolicy::Explicit, crate::exec::mix(seed, 1500 + *ci as u64))
     });
     let mut states = 0u64;
     let mut transitions = 0u64;
     let mut cancelled_ok = 0u64;
     let mut kinds: std::collections::BTreeMap<String, u64> = Default::default();
-    for ((ci, party, at), r) in jobs.iter().zip(results.iter()) {
+    for ((ci, party, at, oy), r) in jobs.iter().zip(results.iter()) {
         let (n, leader, consts, outs) = &cfgs[*ci];
         let r = match r {
             Ok(r) => r,
@@ -73,8 +76,8 @@ pub fn main(tier: Tier, seed: u64) -> i32 {
         transitions += r.history.len() as u64;
         rep.evaluations += 1;
         let snap = &r.snapshot;
-        let desc = format!("n={n} leader={leader} consts_from={consts:?} outputs={outs:?}: cancel party {party} after event #{at}");
-        let replay = json!({"kind":"srv15","n":n,"leader":leader,"consts_from":consts,"outputs":outs,"party":party,"at":at,"history":r.history});
+        let desc = format!("n={n} leader={leader} consts_from={consts:?} outputs={outs:?}: cancel party {party} after event #{at}, output suspends {oy}x");
+        let replay = json!({"kind":"srv15","n":n,"leader":leader,"consts_from":consts,"outputs":outs,"party":party,"at":at,"output_yields":oy,"history":r.history});
         let Some(c) = snap.calls.iter().find(|c| c.what == "cancel" && c.party as usize == *party) else {
             rep.violation("cancel_never_returned", desc.clone(), replay);
             continue;
@@ -135,7 +138,7 @@ pub fn main(tier: Tier, seed: u64) -> i32 {
     rep.set("cancel_outcomes", json!(kinds));
     rep.set("base_history_lengths", json!(bases.iter().map(|b| b.2.history.len()).collect::<Vec<_>>()));
     rep.exhaustive = Some(true);
-    rep.rule = "per configuration (n, leader, constants, destinations): the default-order history with explicit MPC-message events is the base; cancel is injected for each party after every k-th event among coordination events, compile completions and (quick: every 4th, thorough: every) MPC message; the run is then continued until quiescence. states = injected histories executed on the real actors; non-trivial = cancel returned Ok".into();
+    rep.rule = "per configuration (n, leader, constants, destinations): the default-order history with explicit MPC-message events is the base; cancel is injected for each party after every k-th event among coordination events, compile completions and (quick: every 4th, thorough: every) MPC message; the run is then continued until quiescence; each injection is run with a client whose output call completes at once and with one that suspends once before completing (a notification counts as sent when the call has completed). states = injected histories executed on the real actors; non-trivial = cancel returned Ok".into();
     rep.assumptions = vec![
         "current-thread runtime; the two orders 'spawned MPC task polled before/after notify_one' are both reached through the compile-gate choice point".into(),
         "a multi-threaded runtime is not explored".into(),
